@@ -114,12 +114,14 @@ def run(run, tier, loadcfg):
                        'by_ref/by_rc give both branches the same shared cell. Nothing is explored over schedules: the quantifier over interleavings is discharged by the '
                        'inductive invariant in DESIGN Appendix C.2 (paper), whose transitions are exactly what is checked here.')
     run.assumptions = ['the ring buffer is a FIFO queue of capacity >= the lead (C06)', 'RefCell / Rc behave as documented']
-    cfgs = ['std-debug'] + (['nostd'] if tier == 'thorough' else [])
+    cfgs = ['std-debug', 'std-release'] + (['nostd'] if tier == 'thorough' else [])
     for cfg in cfgs:
         fx_ = loadcfg(cfg, optional=(cfg == 'nostd'))
         if fx_ is None:
             continue
         cx = Ctx(fx_)
+        from rules import C06
+        C06.check_used(run, cx, cfg, [b for b in fx_.bodies.values() if b['crate'] == 'dasp_signal' and any(x in b['path'] for x in ('BranchRcA', 'BranchRcB', 'BranchRefA', 'BranchRefB', 'Signal::fork', 'dasp_signal::Fork'))], 9)
         si, ri, pi = shared_fields(cx)
         if None in (si, ri, pi):
             run.fail('fork.shared-state', SHARED, cfg, 'ForkShared { signal, ring_buffer, pending } not found')
